@@ -67,6 +67,7 @@ inductive AExn where
   | user (cb : Cb) (k : Nat)        -- the exception raised by the k-th invocation of callback cb
   | ki                              -- KeyboardInterrupt
   | frame (body : Bytes)            -- not an exception: the ABNF close frame handed to on_error (F2)
+  | other (k : String)              -- anything else observed on the real side (never produced by the model)
   deriving DecidableEq, Repr, Inhabited
 
 inductive Arg where
@@ -486,7 +487,10 @@ def connect (s : St) : St × R Unit :=
     | d :: ds => (d, ds)
   let s := ({ s with dials := rest, nextIdx := i + 1 }).emit (.dial i)
   match oc with
-  | .refused => ({ s with sock := some { idx := i, connected := false, isOpen := false, dead := false } }, .exc .transport)
+  | .refused =>
+    -- `_open_socket`: the socket is created, `connect` fails, the socket is closed
+    (({ s with sock := some { idx := i, connected := false, isOpen := false, dead := false } }).emit (.sockClosed i),
+     .exc .transport)
   | .rejected st =>
     (({ s with sock := some { idx := i, connected := false, isOpen := false, dead := false } }).emit (.sockClosed i),
      .exc (.badstatus st))
